@@ -359,9 +359,24 @@ func ruleExactTruncation(min int) func(p *Prog, l *Ledger, tier string) {
 		const rule = "E3c.exact-truncation"
 		a := NewNilAnalysis(p)
 		n := 0
+		// helpers reachable only from an excluded function inherit its exclusion
+		excluded := map[*ssa.Function]bool{}
+		codec := map[*ssa.Function]bool{}
+		for _, f := range c08Scope(p, l, rule, tier) {
+			codec[f] = true
+		}
+		for ex := range exactScopeExcluded {
+			if root := p.Fn(ex); root != nil {
+				for _, f := range p.Closure([]*ssa.Function{root}) {
+					if !codec[f] {
+						excluded[f] = true
+					}
+				}
+			}
+		}
 		for _, fn := range p.LibFns {
 			name := FnName(fn)
-			if _, skip := exactScopeExcluded[name]; skip || name == "init" {
+			if _, skip := exactScopeExcluded[name]; skip || name == "init" || excluded[fn] {
 				continue
 			}
 			for _, ins := range truncSites(fn) {
